@@ -2793,11 +2793,31 @@ func NewValArg(in []byte) *SQLVal {
 	return &SQLVal{Type: ValArg, Val: in}
 }
 
+// encodeStringLiteral writes val as a quoted string which the tokenizer reads back unchanged.
+// The tokenizer only decodes the escape sequences \', \\ and \n, a backslash in front of
+// any other character is kept, so no other character may be escaped here.
+func encodeStringLiteral(buf *TrackedBuffer, val []byte) {
+	buf.WriteByte('\'')
+	for _, ch := range val {
+		switch ch {
+		case '\'':
+			buf.WriteString("\\'")
+		case '\\':
+			buf.WriteString("\\\\")
+		case '\n':
+			buf.WriteString("\\n")
+		default:
+			buf.WriteByte(ch)
+		}
+	}
+	buf.WriteByte('\'')
+}
+
 // Format formats the node.
 func (node *SQLVal) Format(buf *TrackedBuffer) {
 	switch node.Type {
 	case StrVal:
-		sqltypes.MakeTrusted(sqltypes.VarBinary, node.Val).EncodeSQL(buf)
+		encodeStringLiteral(buf, node.Val)
 	case IntVal, FloatVal, HexNum:
 		buf.Myprintf("%s", []byte(node.Val))
 	case HexVal:
